@@ -182,6 +182,38 @@ theorem teardown_locks :
       writesHold accesses (classNames.idxOf n) registryLockRef)) = true := by
   refine ⟨by decide +kernel, by decide +kernel, by decide +kernel, by decide +kernel⟩
 
+/-! ## Lock order: the tree's acquisition order has a rank function, hence no AB-BA deadlock
+
+  `lockOrderEdges` = (held, acquired) for every site of package server that takes one of the tracked
+  mutexes while holding another one (call-graph resolved, regenerated on every run).  On the current
+  tree: `loadedMu` → `refMu` (expireRunner, the expired handler of processCompleted, updateFreeSpace).
+  `Scheduler.load` takes `loadedMu` while holding the `refMu` of the runner it has just created; that
+  object is not published yet, nobody can wait for or hold its mutex: listed under
+  `lockOrderFreshEdges`, outside the relation.  Not in the relation: blocking channel operations
+  performed while a mutex is held. -/
+
+/-- the translator's topological rank is a rank function for the regenerated relation -/
+theorem lock_order_ranked :
+    lockOrderEdges.all (fun e => lockRank.getD e.1 0 < lockRank.getD e.2 0) = true := by decide
+
+/-- hence the relation is acyclic: no mutex class is (transitively) taken while held -/
+theorem lock_order_acyclic : ∃ rank : Nat → Nat, ∀ e ∈ lockOrderEdges, rank e.1 < rank e.2 := by
+  refine ⟨fun i => lockRank.getD i 0, ?_⟩
+  have h := lock_order_ranked
+  rw [List.all_eq_true] at h
+  intro e he
+  simpa using h e he
+
+/-- **No deadlock among the tracked mutexes of the tree**: in any holder state, blocked acquisitions
+    that instantiate the regenerated acquisition-order sites cannot form a wait cycle. -/
+theorem no_deadlock_among_tracked_mutexes (cls : Lock → Nat) (h : Holder) (a : Wait) (rest : List Wait)
+    (hconf : LockOrderConforms lockOrderEdges cls h (a :: rest)) (hc : chainOK h (a :: rest))
+    (hclose : h ((a :: rest).getLast (by simp)).m = some a.t) : False := by
+  have hr := lock_order_ranked
+  rw [List.all_eq_true] at hr
+  exact ranked_lock_order_no_deadlock lockOrderEdges cls (fun i => lockRank.getD i 0)
+    (fun e he => by simpa using hr e he) h a rest hconf hc hclose
+
 /-! ## The `lookup` guard of the life-cycle semantics is C01's invariant
 
   `lstep (.lookup t o)` is enabled only for objects that are not torn down: "the registry never holds
